@@ -216,7 +216,9 @@ fn make_job(rng: &mut Rng, op: usize) -> Option<Job> {
             pp.max_out = rng.range(1, 40_000) as usize;
             pp.long_bias = true;
             pp.w = [6, 30, 2, 6, 2, 2, 2];
-            let mut prog = pg.generate(rng, &pp, &mut it);
+            // one job in twelve decodes to nothing at all: no sink write, and still a flush (and a
+            // failing flush still an error)
+            let mut prog = if rng.chance(1, 12) { Vec::new() } else { pg.generate(rng, &pp, &mut it) };
             let marker = op != 3 && rng.chance(1, 2);
             if marker {
                 prog.push(Sym::Eos);
@@ -230,7 +232,7 @@ fn make_job(rng: &mut Rng, op: usize) -> Option<Job> {
             let n = rng.range(1, 6) as usize;
             let mut p = L2Params::standard(n, 200);
             p.w = [2, 2, 6, 2, 2, 3];
-            let chunks = gen_chunks(rng, &p);
+            let chunks = if rng.chance(1, 10) { Vec::new() } else { gen_chunks(rng, &p) };
             let w = lzma2::write(&chunks).ok()?;
             Some(Job { op, input: w.bytes, props: Props::new(0, 0, 0), out_len: w.output.len() as u64, desc: chunks.iter().map(|c| c.short()).collect::<Vec<_>>().join(" "), expect: Some(w.output) })
         }
@@ -285,6 +287,9 @@ fn fam_jobs(ctx: &CaseCtx, cov: &mut Cov) -> CaseOut {
         cov.name("fault_free_output_checked_against_reference", 1);
     }
     let good = base.sink.clone();
+    if good.is_empty() && op <= 5 || good.is_empty() && op >= 11 {
+        cov.name("decoder_jobs_with_empty_output", 1);
+    }
     cov.inc("op", op as u32);
     cov.max("sink_write_calls", base.writes);
     cov.max("source_calls", base.src_calls);
